@@ -33,6 +33,21 @@ CLAIMED['C06'] = dict(
     technique='TLA+ step model of the Hungarian solver checked by TLC (safety+liveness); TLC trace validation of real compute() results and step states',
     design='3/C06')
 
+CLAIMED['C03'] = dict(
+    text='ExprLexer / ExprGrammar / ExprEval specify the formula language from characters to exact rational values. TLC '
+         'enumerates every token string up to 4 (thorough 5) tokens over a 20-token alphabet, every character string up to 4 '
+         '(thorough 6) characters over two lexer alphabets and every operator chain of up to 3 (thorough 4) operators with optional '
+         'negations, checks six laws (canonical round trip, parenthesis / leading-plus transparency, usage consistency) and '
+         'that the parser agrees with a second, independent definition of the value taken directly from the precedence '
+         'table. Every enumerated string is replayed into the real evaluator(): acceptance class, exact value, '
+         'whitespace / number-format / em-dash / space-insertion variants, and agreement of each chain with its '
+         'canonical fully parenthesised form under real and complex bindings. Long random derivations and corruptions '
+         'recorded from evaluator() are validated by the trace specification ExprTrace.',
+    note='Trusted: TLC; float<->rational comparison in the adapter (1e-9 relative, exact values only); numpy/CPython arithmetic. '
+         'Irrational / huge values are compared only through canonical-form agreement, not against an exact value.',
+    technique='TLA+ grammar+evaluator spec; TLC bounded-exhaustive string enumeration replayed into evaluator(); TLC trace validation',
+    design='3/C03')
+
 REASON_PENDING = 'check not built yet in this revision; the design (DESIGN.md section 3) covers it and it will be claimed once its spec and binding exist'
 
 
